@@ -27,7 +27,7 @@ type EntryFunc func(startTime time.Time, reader io.Reader, writer io.Writer, con
 // roll over in a short run), now and then a few seconds before the next
 // midnight, so that the daily writer's rotation happens while data flows.
 // The returned function is called inside the run, before the program starts.
-func nearMidnight(t *rt.Tape, o *hx.Outcome) func() {
+func nearMidnight(t *rt.Tape, o *hx.Outcome, s *rt.Sim) func() {
 	if t.SW(9, 1) == 0 {
 		return func() {}
 	}
@@ -42,6 +42,7 @@ func nearMidnight(t *rt.Tape, o *hx.Outcome) func() {
 			time.Sleep(min(left, 6*time.Hour))
 			rt.Yield("waiting for the evening")
 		}
+		s.Lead = time.Since(now)
 	}
 }
 
@@ -284,7 +285,7 @@ func C10(entry EntryFunc) func(*hx.Ctx) *hx.Outcome {
 		s.Budget = 300*(len(wire)+32) + 30000 + 40*nMsgs
 		returned := false
 		atReturn := -1
-		preStart := nearMidnight(t, o)
+		preStart := nearMidnight(t, o, s)
 		verdict := s.Run(func() {
 			preStart()
 			entry(startTime, src, sink, &cfg)
@@ -374,6 +375,14 @@ func hostileStream(c *hx.Ctx, o *hx.Outcome) ([]gnss.Segment, []byte) {
 		case 1:
 			segs = append(segs, gnss.GenDecodableFrame(t))
 			o.Probe("wellformed-decodable-frame")
+			// followed by "the next message from the same receiver"
+			for k := t.SW(3, 2, 1); k > 0; k-- {
+				if sg, kind := gnss.SiblingFrame(t, segs[len(segs)-1].Bytes); kind != "" {
+					segs = append(segs, sg)
+					o.Probe("sibling-frame")
+					o.Probe("sibling:" + kind)
+				}
+			}
 		case 2:
 			segs = append(segs, gnss.GenFrame(t, gnss.Opts{LongOneIn: 6}))
 		case 3:
@@ -490,7 +499,7 @@ func C16(start func(cfg *lcfg.Config)) func(*hx.Ctx) *hx.Outcome {
 		returned := false
 		var atExit []byte
 		nAtExit := 0
-		preStart := nearMidnight(t, o)
+		preStart := nearMidnight(t, o, s)
 		verdict := s.Run(func() {
 			preStart()
 			start(cfg)
